@@ -49,6 +49,16 @@ def main():
             if req.get("canary") and verdict != "proved" and relevant and ob.name.split("[")[0] not in (req.get("ignore") or []) \
                     and ob.name not in (req.get("ignore") or []):
                 break
+        # verdict stability: a proof that only just fits the budget must not flip when the machine is busy -- the few obligations
+        # left open are tried once more with three times the budget before anything is reported
+        open_ = [i for i, o in enumerate(out["obligations"]) if o["verdict"] != "proved"]
+        if not req.get("canary") and 0 < len(open_) <= 3:
+            by_name = {ob.name: ob for ob in obs}
+            for i in open_:
+                o = out["obligations"][i]
+                verdict, backend, ms, detail = smt.check(by_name[o["name"]], ax, 3 * budget)
+                if verdict == "proved" or o["verdict"] == "undecided":
+                    o.update({"verdict": verdict, "backend": backend, "ms": o["ms"] + ms, "detail": (detail or "")[:4000], "retried": True})
     except Unsupported as e:
         out["error"] = {"type": "unsupported", "msg": str(e)}
     except SpecError as e:
